@@ -23,6 +23,10 @@ func (x *Exec) newRef(st *State) *Term {
 	a := x.alloc(st)
 	r := mkAdd(a, mkInt(1))
 	st.setH("$alloc", r)
+	if x.freshRefs == nil {
+		x.freshRefs = map[*Term]bool{}
+	}
+	x.freshRefs[r] = true
 	return r
 }
 
@@ -244,6 +248,7 @@ func (x *Exec) storeTerm(st *State, p *PtrVal, nv *Term, pos token.Pos) {
 // load reads a Go value through p, with nil obligation.
 func (x *Exec) load(st *State, p *PtrVal, pos token.Pos, what string) Val {
 	x.nilCheck(st, p, pos, what)
+	x.guardAccess(st, p, false, pos)
 	if p.Base == PLocal && len(p.Path) == 0 {
 		v, ok := st.cells[p.Cell]
 		if !ok {
@@ -258,6 +263,7 @@ func (x *Exec) load(st *State, p *PtrVal, pos token.Pos, what string) Val {
 
 func (x *Exec) store(st *State, p *PtrVal, v Val, pos token.Pos, what string) {
 	x.nilCheck(st, p, pos, what)
+	x.guardAccess(st, p, true, pos)
 	if p.Base == PLocal && len(p.Path) == 0 {
 		st.cells[p.Cell] = v
 		return
